@@ -13,7 +13,7 @@ import json,jsonschema,glob
 s=json.load(open('/root/.vp/EVIDENCE.schema.json'))
 for f in sorted(glob.glob('/verif/evidence/*.json')):
     d=json.load(open(f)); jsonschema.validate(d,s)
-    assert d['coverage']['obligations']-d['coverage']['discharged']==len(d['coverage'].get('known_findings', [])), f   # an undischarged obligation must be a listed known finding
+    assert d['coverage']['obligations']==d['coverage']['discharged'], f   # proof level: every counted obligation discharged (open known findings are listed separately, not counted)
 print('evidence files valid')
 PY
 exit $rc
